@@ -198,6 +198,11 @@ func (mpt *MerklePatriciaTrie) Insert(path Path, value MPTSerializable) (Key, er
 	}
 
 	valueCopy := &SecureSerializableValue{eval}
+	// the nodes built below keep sub-slices of the path: like the value, the
+	// path is copied, so that the caller is free to reuse its key buffer
+	ownPath := make(Path, len(path))
+	copy(ownPath, path)
+	path = ownPath
 	mpt.mutex.Lock()
 	defer mpt.mutex.Unlock()
 	var newRootHash Key
